@@ -223,6 +223,7 @@ def cases_AD(tier):
                 if ch[-1] == n - 1 and n > 1:
                     yield {'o': 'A', 'file': rel, 'idx': [0, n - 1], 'via': 'last'}
                     yield {'o': 'A', 'file': rel, 'idx': [0, n - 1], 'via': 'time'}
+            if n >= 2: yield {'o': 'A', 'file': rel, 'idx': [n // 2, 0, n - 1], 'via': 'difference'}
             # another listing, written by another simulator, is opened (and stepped) while this one is in use
             others = sorted((r for r in GL.shipped() if fam(r) != fam(rel)), key=lambda r: (GL.size_of(r), r))
             seen = set()
@@ -277,7 +278,7 @@ def case_B(draw, files):
 def cases_B_fill(tier):
     """deterministic part of B: every file x every kind with all tokens replaced"""
     def g():
-        files = GL.shipped() if tier != 'quick' else _small_files(600000)
+        files = GL.shipped() if tier != 'quick' else _small_files(900000)      # includes AUTOUGH2/7 (rows printed twice under one name)
         for rel in files:
             for kind in KINDS:
                 yield {'o': 'B', 'file': rel, 'kind': kind, 'fill': 1, 'every': 1, 'off': 0}
@@ -372,7 +373,17 @@ def run_A(case, R):
                     lst.time = b.time * (1.0 + 1e-9) + (1e30 if bi == n - 1 else 0.0)      # nearest; beyond the end for the last one
                 elif via == 'step' and [x.step for x in F.full].count(b.step) == 1: lst.step = b.step
                 else: lst.index = bi
-            if not R.check(lst.index == bi, 'A:%s:index-reached' % fam(rel), '%s: asked for result %d via %s, reader is at index %r' % (
+            if via == 'difference' and 'element' in lst._table and n >= 2:
+                # a call that visits two result times on the way (convergence / get_difference): wherever the reader says it
+                # is afterwards, its tables are those printed for that time
+                with R.lib('get_difference'):
+                    if nvis % 2: lst.get_difference(bi) if bi > 0 else lst.get_difference()
+                    else: lst.convergence
+                bi = lst.index
+                if not R.check(isinstance(bi, (int, np.integer)) and 0 <= bi < n, 'A:%s:index-after-difference' % fam(rel), repr(bi)): return
+                bi = int(bi); b = F.full[bi]
+                R.label('after-get_difference')
+            elif not R.check(lst.index == bi, 'A:%s:index-reached' % fam(rel), '%s: asked for result %d via %s, reader is at index %r' % (
                     rel, bi, via, lst.index)): return
             exp = expected_tables(F, bi)
             R.check(lst.time == b.time and lst.step == b.step, 'A:%s:time-step' % fam(rel),
@@ -416,7 +427,7 @@ def run_D(R, rel, bi, name, lt):
             R.fail(sig + ':column-shape', '%s[%r] has shape %r for %d rows' % (where, c, getattr(v, 'shape', None), len(names)))
             return
     step = 1 if len(names) <= 600 else len(names) // 300
-    rows = sorted(set(list(range(0, len(names), step)) + [len(names) - 1])) if names else []
+    rows = sorted(set(list(range(0, len(names), step)) + [len(names) - 1] + [i for i, n in enumerate(names) if count[n] > 1][:40])) if names else []
     before = lt._data.copy()
     if getattr(lt, 'allow_reverse_keys', False):
         # a connection named the other way round: the negated row (documented), as often as it is asked for
@@ -668,6 +679,11 @@ def run_B(case, R):
                             return
                 if not _cmp_table(R, sig, rel, bi, name, lst._table[name], (keys, cols, arr, alts, t), edited):
                     return
+                # the three ways of addressing a cell, on the numbers of the perturbed file (rows printed twice under one
+                # name hold different numbers here)
+                before = len(R.findings)
+                run_D(R, rel + ' [perturbed %s]' % case['kind'], bi, name, lst._table[name])
+                if len(R.findings) > before: return
     finally:
         lst.close()
 
